@@ -400,6 +400,13 @@ func pathHelper(c *ssa.Call, idx int) *ssa.Function {
 	if idx >= res.Len() || !isStringType(res.At(idx).Type()) {
 		return nil
 	}
+	// a function that creates or changes files is not a path expression (a spool helper hands back the
+	// name of the temp file it made: that name is a leaf of its own kind)
+	mutates := false
+	core.Calls(g, func(c ssa.CallInstruction) { mutates = mutates || isFSMutator(core.Callee(c)) })
+	if mutates {
+		return nil
+	}
 	return g
 }
 
